@@ -46,7 +46,10 @@ ASSUMPTIONS = ["world aggregate (scale=global) is run in the thorough tier only"
 CORPUS = [("CMR", "variation:shutoff=continued_after_10_percent_fed"), ("CMR", "variation:shutoff=long_delayed_shutoff_after_10_percent_fed"),
           ("ECU", "variation:intake_constraints=disabled_for_humans"), ("ECU", "variation:shutoff=continued_after_10_percent_fed"),
           ("ECU", "variation:shutoff=long_delayed_shutoff_after_10_percent_fed"), ("SLV", "variation:shutoff=continued_after_10_percent_fed"),
-          ("SLV", "variation:shutoff=long_delayed_shutoff_after_10_percent_fed"), ("SLV", "variation:shutoff=one_month_delayed_shutoff")]
+          ("SLV", "variation:shutoff=long_delayed_shutoff_after_10_percent_fed"), ("SLV", "variation:shutoff=one_month_delayed_shutoff"),
+          # the rarely taken path "round 2 abandoned: meat with feed is lower than without" (33 of the 8528 pairs of the grid, 26 of them Lesotho)
+          ("LSO", "yaml:eu_countries.yaml:net_nuclear_winter_reduced"), ("LSO", "yaml:argentina.yaml:argentina_net_nuclear_resilient"),
+          ("MUS", "manuscript:recalculate_plot_1:1"), ("KEN", "variation:shutoff=one_month_delayed_shutoff"), ("PAK", "variation:shutoff=one_month_delayed_shutoff")]
 
 
 def yaml_presets(repo):
